@@ -661,6 +661,7 @@ func runC19(c *Check) {
 		c.Min("R9", "wait loops in Stop", nWait, 1)
 		c.ruleRestartNotBehindStopping("R10")
 		c.whoMayCall("R11", "(*spynode.Node).requestStop", requestStopCallers, 4)
+		c.ruleDialUnderLock("R12")
 		var rq []ssa.Instruction
 		for _, s := range callsTo(fn, "(*spynode.Node).requestStop") {
 			rq = append(rq, s.Instr)
